@@ -137,6 +137,96 @@ class _WProxy:
         setattr(self._f, name, value)
 
 
+class _RawProxy(io.RawIOBase):
+    """The raw (unbuffered) layer of a file opened for writing. CPython's own BufferedWriter / TextIOWrapper sit on
+    top of it, so user-space buffering is REAL: bytes that were written by the program but not yet flushed never reach
+    this layer and are lost by os._exit, exactly as when a process is killed. Every write that does reach it is one
+    traced effect (and can be cut after k bytes by a crash plan)."""
+
+    def __init__(self, raw, path):
+        super().__init__()
+        self._raw = raw
+        self._p = path
+
+    def writable(self):
+        return True
+
+    def readable(self):
+        return False
+
+    def seekable(self):
+        return self._raw.seekable()
+
+    def fileno(self):
+        return self._raw.fileno()
+
+    def isatty(self):
+        return False
+
+    def write(self, b):
+        data = bytes(b)
+        fd = self._raw.fileno()
+
+        def do():
+            view = memoryview(data)
+            while len(view):
+                n = _real["os.write"](fd, view)
+                view = view[n:]
+
+        _write_effect(self._p, fd, data, do)
+        return len(data)
+
+    def seek(self, *a):
+        return self._raw.seek(*a)
+
+    def tell(self):
+        return self._raw.tell()
+
+    def truncate(self, *a):
+        r = self._raw.truncate(*a)
+        _effect("truncate", self._p)
+        return r
+
+    def close(self):
+        if not self.closed:
+            try:
+                super().close()
+            finally:
+                self._raw.close()
+
+    @property
+    def name(self):
+        return self._raw.name
+
+    @property
+    def mode(self):
+        return self._raw.mode
+
+
+def _layered(raw, path, mode, buffering, encoding, errors, newline):
+    """Real CPython buffering layers on top of the traced raw layer (what io.open would build)."""
+    rp = _RawProxy(raw, path)
+    binary = "b" in mode
+    if buffering == 0:
+        return rp
+    size = buffering if buffering and buffering > 1 else getattr(raw, "_blksize", io.DEFAULT_BUFFER_SIZE) or io.DEFAULT_BUFFER_SIZE
+    buf = io.BufferedWriter(rp, size)
+    if binary:
+        return buf
+    text = io.TextIOWrapper(buf, encoding, errors, newline, line_buffering=(buffering == 1))
+    text.mode = mode
+    return text
+
+
+def _open_args(args, kwargs):
+    names = ["buffering", "encoding", "errors", "newline", "closefd", "opener"]
+    vals = {"buffering": -1, "encoding": None, "errors": None, "newline": None, "closefd": True, "opener": None}
+    for n, v in zip(names, args):
+        vals[n] = v
+    vals.update(kwargs)
+    return vals
+
+
 class _RFaultProxy:
     def __init__(self, f):
         self._f = f
@@ -168,6 +258,10 @@ def _is_write_mode(mode):
 def _open(file, mode="r", *args, **kwargs):
     real_open = _real["io.open"]
     if isinstance(file, int):
+        if _is_write_mode(mode) and "+" not in mode and S.tracked_fds is not None and file in S.tracked_fds:
+            a = _open_args(args, kwargs)
+            raw = real_open(file, mode.replace("t", "").replace("b", "") + "b", buffering=0, closefd=a["closefd"])
+            return _layered(raw, S.tracked_fds[file], mode, a["buffering"], a["encoding"], a["errors"], a["newline"])
         f = real_open(file, mode, *args, **kwargs)
         if _is_write_mode(mode) and S.tracked_fds is not None and file in S.tracked_fds:
             return _WProxy(f, S.tracked_fds[file])
@@ -185,18 +279,29 @@ def _open(file, mode="r", *args, **kwargs):
             return _RFaultProxy(f)
         return f
     existed = os.path.lexists(p)
-    f = real_open(file, mode, *args, **kwargs)
     kind = "open:" + "".join(c for c in mode if c in "wax+")
     if "w" in mode and existed:
         kind += ":trunc"
     elif not existed:
         kind += ":create"
+    if "+" in mode:
+        # random access: rare, keep the simple proxy (every write flushed and traced)
+        f = real_open(file, mode, *args, **kwargs)
+        try:
+            _effect(kind, p)
+        except BaseException:
+            f.close()
+            raise
+        return _WProxy(f, p)
+    a = _open_args(args, kwargs)
+    okw = {"opener": a["opener"]} if a["opener"] is not None else {}
+    raw = real_open(file, mode.replace("t", "").replace("b", "") + "b", buffering=0, **okw)
     try:
         _effect(kind, p)
     except BaseException:
-        f.close()
+        raw.close()
         raise
-    return _WProxy(f, p)
+    return _layered(raw, p, mode, a["buffering"], a["encoding"], a["errors"], a["newline"])
 
 
 def _os_open(path, flags, mode=0o777, *, dir_fd=None):
